@@ -1,5 +1,6 @@
 import RreModel.C06.Lemmas
 import RreModel.C06.Exact
+import RreModel.C06.Writes
 /-
 C06 — property theorems (only).  "RETE engine fires a rule exactly for live facts that satisfy it."
 Histories are arbitrary lists of insert / update / retract / fire_all / reset (any length, any handles, any data),
@@ -415,5 +416,93 @@ example :
     quietRules rules = true ∧ (rules.map (·.name)).Nodup ∧ (∀ o ∈ ops, o.WF) ∧
     ((({ rules := rules } : Engine).run ops).fireAll.2.map (·.rule)) = [1, 0] := by
   refine ⟨by decide, by decide, by decide, by decide +kernel⟩
+
+/-! ### actions that modify the matched fact: clause `action_write_lost` (`writesOk` / `writeBackBad`, Spec.lean) -/
+
+/-- **action_writes_kept** (one call): for EVERY engine state whose working memory satisfies the invariant and whose facts carry
+one binding per field (every state reachable by a history, `action_writes_kept_history`), every rule set (any conditions,
+assignments, retractions, saliences, no-loop flags, duplicate names) — one `fire_all` call of the model, seen as the oracle sees
+it (the view before the call, the recorder log in canonical form, the view after the call), satisfies the clause `writesOk`:
+whenever a firing's matched fact is the only live fact of its type and its rule assigns without retracting, the NEXT firing on
+the same handle — or, for the last firing of the call, the view after the call — shows the contents the closure saw plus the
+rule's typed assignments (and nothing else changed them in between). -/
+theorem action_writes_kept (e : Engine) (hi : WMInv e.wm) (hd : DataOK e.wm) :
+    writesOk e.rules e.fireAll.1.wm.view.contents e.wm.view.contents
+      (e.fireAll.2.map (fun f => { f with data := canonData f.data })) = true :=
+  fireAll_writes e hi hd
+
+/-- **action_writes_kept** (histories): on the model's observation of ANY history (any length, any mix of insert / update /
+retract / fire_all / reset, any handles incl. unknown and retracted ones) under ANY rule set, the driver's clause never fails:
+`writeBackBad` — the function `drv_c06 oracle` evaluates after `orun`, which answers `action_write_lost@i` — is `none`.
+The one hypothesis is the representation invariant of `Data` as a map (`Op.WF`: inserted / updated contents carry one binding per
+field, as a `TypedFacts` HashMap does and as every case line parses); `action_writes_kept_needs_map_data` shows it is needed. -/
+theorem action_writes_kept_history (rules : List Rule) (ops : List Op) (hwf : ∀ o ∈ ops, o.WF) :
+    writeBackBad rules 0 {} ops (trace { rules := rules } ops) = none :=
+  writeBackBad_trace rules ops { rules := rules } {} 0 wminv_init (fun _ hf => by cases hf) rfl rfl hwf
+
+/-- what the write-back does to the matched fact, stated on the model directly: if the loop body fires rule `rule` (no retraction)
+on a fact `f` of the rule's type that is the only live fact of that type, the fact is live afterwards and every field reads what
+assigning ALL of the rule's assignments, in order, onto the contents the closure saw reads — typed values, later assignments to
+the same field winning, untouched fields kept. -/
+theorem fire_one_applies_assignments (e e' : Engine) (a : Act) (x : Firing) (hi : WMInv e.wm) (hd : DataOK e.wm)
+    (h : e.fireOne a = (e', some x)) :
+    ∃ rule f, e.rules.find? (·.name == x.rule) = some rule ∧ e.wm.get x.handle = some f ∧ x.data = f.data ∧
+      (rule.action.retract = false → f.ty = rule.ty → (∀ g ∈ e.wm.getAllFacts, g.ty = f.ty → g = f) →
+        ∃ f', e'.wm.get x.handle = some f' ∧ f'.ty = f.ty ∧
+          (∀ k, f'.data.get k = (applySets f.data rule.action.sets).get k) ∧
+          canonData f'.data = canonData (applySets (canonData f.data) rule.action.sets)) := by
+  obtain ⟨rule, f, post⟩ := fireOne_post e e' a x hi hd h
+  refine ⟨rule, f, post.rule_found, post.got, post.data, fun h1 h2 h3 => ?_⟩
+  obtain ⟨f', hg, hk⟩ := post.kept h1 h2 h3
+  refine ⟨f', hg, ?_, hk, expected_eq f f' _ hk⟩
+  -- the type of a handle never changes
+  obtain ⟨hfl, hfh⟩ := live_of_get post.got
+  obtain ⟨hfl', hfh'⟩ := live_of_get hg
+  obtain ⟨g, hgm, e1, e2⟩ := post.known f.handle f.ty ⟨f, ((getAllFacts_iff _ f).1 hfl).1, rfl, rfl⟩
+  have : g = f' := fact_unique post.wminv ((getAllFacts_iff _ f').1 hfl').1 hgm (by rw [e1, hfh, hfh'])
+  rw [← this, e2]
+
+/-- a rule that raises a counter and sets a flag, and one that fires on the flag: both fire in one `fire_all`, the second sees
+(and the view after the call shows) the contents the first one left -/
+def bump : Rule := { name := 0, ty := 0, node := .alpha 0 0 .lt (.lit (.int 10)), prio := 5, noLoop := true,
+                     action := { sets := [(0, .int 10), (1, .bool true), (0, .int 11)] } }
+def flagged : Rule := { name := 1, ty := 0, node := .alpha 0 1 .eq (.lit (.bool true)), prio := 0, noLoop := true,
+                        action := { sets := [(2, .str 7)] } }
+
+example :
+    (trace { rules := [bump, flagged] } [.insert 0 [(3, .null), (0, .int 1)], .insert 1 [(0, .int 1)], .fire]).map (·.res)
+      = [.handle 1, .handle 2,
+         .fired [0, 1] [{ rule := 0, handle := 1, data := [(0, .int 1), (3, .null)] },
+                        { rule := 1, handle := 1, data := [(0, .int 11), (1, .bool true), (3, .null)] }]]
+    ∧ ((({ rules := [bump, flagged] } : Engine).run [.insert 0 [(3, .null), (0, .int 1)], .insert 1 [(0, .int 1)], .fire]).wm.view.contents
+      = [(1, 0, [(0, .int 11), (1, .bool true), (2, .str 7), (3, .null)]), (2, 1, [(0, .int 1)])])
+    ∧ writeBackBad [bump, flagged] 0 {} [.insert 0 [(3, .null), (0, .int 1)], .insert 1 [(0, .int 1)], .fire]
+        (trace { rules := [bump, flagged] } [.insert 0 [(3, .null), (0, .int 1)], .insert 1 [(0, .int 1)], .fire]) = none := by
+  decide +kernel
+
+-- the clause is not vacuous: it rejects a log whose second firing does not see the first one's assignment, a final view that
+-- lost it, and one that shows the printed form of the value instead of the typed value
+example :
+    writesOk [bump, flagged] [(1, 0, [(0, .int 11), (1, .bool true), (2, .str 7)])] [(1, 0, [(0, .int 1)])]
+      [{ rule := 0, handle := 1, data := [(0, .int 1)] }, { rule := 1, handle := 1, data := [(0, .int 1), (1, .bool true)] }] = false
+    ∧ writesOk [bump] [(1, 0, [(0, .int 1)])] [(1, 0, [(0, .int 1)])] [{ rule := 0, handle := 1, data := [(0, .int 1)] }] = false
+    ∧ writesOk [bump] [(1, 0, [(0, .str 11), (1, .bool true)])] [(1, 0, [(0, .int 1)])]
+      [{ rule := 0, handle := 1, data := [(0, .int 1)] }] = false
+    ∧ writesOk [bump] [(1, 0, [(0, .int 11), (1, .bool true)])] [(1, 0, [(0, .int 1)])]
+      [{ rule := 0, handle := 1, data := [(0, .int 1)] }] = true := by
+  decide +kernel
+
+/-- the statement without the map-form hypothesis on the contents -/
+def action_writes_kept_any_data : Prop :=
+  ∀ (rules : List Rule) (ops : List Op), writeBackBad rules 0 {} ops (trace { rules := rules } ops) = none
+
+/-- it fails for contents that bind a field twice — a list that is not a map, which neither a `TypedFacts` HashMap nor a case line
+can express: `Data.set` (the model of `HashMap::insert`) rewrites the first binding only. The hypothesis `Op.WF` of
+`action_writes_kept_history` is the representation invariant, not a restriction of the histories. -/
+theorem action_writes_kept_needs_map_data : ¬ action_writes_kept_any_data := by
+  intro h
+  have := h [bump] [.insert 0 [(0, .int 1), (0, .int 2)], .fire]
+  revert this
+  decide +kernel
 
 end C06
